@@ -4,8 +4,9 @@ Proof: FP/Props/C17.lean about FP/Model/{Reach,Bottleneck,Antichain}.lean:
   reach_via_condensation / reaching_via_condensation / scc_edge_iff / edge_max_reachable_correct (any labelling,
   condensation, descendants/ancestors table and topological sort satisfying `CondContract`), cache_transparent (all
   query sequences), dag_tables_correct (any order satisfying `IsTopo`), bottleneck_path_correct, greedy_invariant,
-  greedy_exact (full: termination within |E|+1 rounds, zero residual, exact sums, source-to-sink paths),
-  greedy_edgeless_keyError (finding C17-F1 on the model), antichain_sound, antichain_fuel, antichain_max (weak duality).
+  greedy_exact (full, every DAG incl. the edgeless ones: termination within |E|+1 rounds, zero residual, exact sums,
+  source-to-sink paths), greedy_edgeless_empty (no edges: (None, None) / ([], []); repaired finding C17-F1),
+  antichain_sound, antichain_fuel, antichain_max (weak duality).
 Tie (K1 exact-output differential, all on the real classes of /repo):
   * stDiGraph: random interleaved query sequences (nodes_reachable / nodes_reaching / is_scc_edge /
     compute_edge_max_reachable_value, repeated, unknown nodes and non-edges included) against the Lean
@@ -14,12 +15,15 @@ Tie (K1 exact-output differential, all on the real classes of /repo):
     object, validated against plain search (contract check) and handed to the model as oracle parameters;
   * stDAG: the four closure tables, accessed in random order and repeatedly, against `dag.tables`;
   * graphutils.max_bottleneck_path and stDAG.decompose_using_max_bottleneck against `bottleneck` / `greedy`
-    (exact paths and weights; the graph and order seen by max_bottleneck_path are captured by wrapping it);
+    (exact paths and weights; the graph and order seen by max_bottleneck_path are captured by wrapping it; on a
+    graph without edges both sides answer (None, None) / ([], []), an exception of the code is a disagreement);
   * stDAG.compute_max_edge_antichain against `antichain` (min_cost_flow result captured by wrapping it and
     validated: feasible, conserved, cost = flow out of the source).
 Oracles (written against the property text, independent of the model): BFS reachability for every answer,
 explicit max over the stated edge set, pairwise incomparability + brute-force maximum-weight edge antichain,
-exact re-summation of the peeled paths with Fractions and a source-to-sink test of every path.
+exact re-summation of the peeled paths with Fractions and a source-to-sink test of every path; max_bottleneck_path
+must answer (None, None) exactly when no source-to-sink path has a positive bottleneck (no path at all included),
+decompose_using_max_bottleneck ([], []) on a graph without edges.
 """
 import itertools, json, random
 from fractions import Fraction
@@ -37,7 +41,7 @@ THEOREMS = [
     "FP.Props.C17.bottleneck_path_correct",
     "FP.Props.C17.greedy_invariant",
     "FP.Props.C17.greedy_exact",
-    "FP.Props.C17.greedy_edgeless_keyError",
+    "FP.Props.C17.greedy_edgeless_empty",
     "FP.Props.C17.antichain_sound",
     "FP.Props.C17.antichain_fuel",
     "FP.Props.C17.antichain_max",
@@ -425,8 +429,8 @@ def run_bottleneck_case(ctx, spec, suite, use_model=True):
     try:
         val, path = fp.utils.graphutils.max_bottleneck_path(G, "flow")
         impl = {"none": True} if path is None else {"value": qstr(val), "path": list(path)}
-    except KeyError:
-        impl = {"raise": "KeyError"}
+    except Exception as ex:                       # the model never raises: reported as disagreement and by the oracle
+        impl = {"raise": type(ex).__name__}
     paths = all_st_paths(nodes, edges)
     inp = {"kind": "bottleneck", **spec}
     ctx.rep.count(suite, [spec["nodes"], spec["edges"]], nontrivial=len(paths) >= 2,
@@ -443,14 +447,17 @@ def run_bottleneck_case(ctx, spec, suite, use_model=True):
     if len(paths) < 4000:
         ctx.rep.cov["oracle_evaluations"] += 1
         bott = lambda p: min(Fraction(f[e]) for e in zip(p[:-1], p[1:]))
-        if not paths:
-            if "raise" not in impl:
-                viol(ctx, f"no source-to-sink path exists but the function returned {impl}", inp, site="max_bottleneck_path")
+        if "raise" in impl:
+            viol(ctx, f"max_bottleneck_path raised {impl['raise']} (expected: "
+                      f"{'a best path or (None, None)' if paths else '(None, None), no source-to-sink path exists'})", inp,
+                 site="max_bottleneck_path")
+        elif not paths:
+            if "none" not in impl:
+                viol(ctx, f"no source-to-sink path exists but the function returned {impl} instead of (None, None)", inp,
+                     site="max_bottleneck_path")
         else:
             best = max(bott(p) for p in paths)
-            if "raise" in impl:
-                viol(ctx, f"max_bottleneck_path raised although source-to-sink paths exist", inp, site="max_bottleneck_path")
-            elif "none" in impl:
+            if "none" in impl:
                 if best != 0:
                     viol(ctx, f"returned (None, None) although the best bottleneck is {best}", inp, site="max_bottleneck_path")
             else:
@@ -478,8 +485,8 @@ def run_greedy_case(ctx, spec, suite, use_model=True):
         try:
             paths, weights = H.decompose_using_max_bottleneck("flow")
             impl = {"paths": [list(p) for p in paths], "weights": [qstr(w) for w in weights]}
-        except KeyError:
-            impl = {"raise": "KeyError"}
+        except Exception as ex:                   # the model never raises: reported as disagreement and by the oracle
+            impl = {"raise": type(ex).__name__}
     finally:
         gu.max_bottleneck_path = orig
     nodes, edges = list(G.nodes()), list(G.edges())
@@ -490,13 +497,15 @@ def run_greedy_case(ctx, spec, suite, use_model=True):
     if any(H[u][v].get("flow") != d.get("flow") for u, v, d in G.edges(data=True)):
         viol(ctx, "decompose_using_max_bottleneck modified the flow stored in the graph", inp, site="decompose_using_max_bottleneck")
     if use_model:
+        if not cap:
+            raise Infra("decompose_using_max_bottleneck did not call graphutils.max_bottleneck_path")
         tn, te, tt, ok = cap[0]
         if not all(c == cap[0] for c in cap) or not ok or tn != nodes or te != edges:
             raise Infra("temp_G of decompose_using_max_bottleneck is not the user's graph in edges() order")
         ans = ctx.driver.call({"op": "greedy", "nodes": nodes, "edges": [list(e) for e in edges], "topo": tt,
                                "flow": [[u, v, qstr(x)] for (u, v), x in f.items()]})
         ctx.rep.cov["traces_validated_against_impl"] += 1
-        model = {"raise": ans["raise"]} if "raise" in ans else ({"stuck": True} if "stuck" in ans else
+        model = ({"stuck": True} if "stuck" in ans else
                  {"paths": ans["paths"], "weights": [qstr(Fraction(w)) for w in ans["weights"]]})
         if model != impl:
             ctx.disagree(suite, inp, impl, model)
@@ -505,8 +514,12 @@ def run_greedy_case(ctx, spec, suite, use_model=True):
     fwd, bwd = adjs(nodes, edges)
     if "raise" in impl:
         viol(ctx, f"decompose_using_max_bottleneck raised {impl['raise']} on a conserving non-negative flow "
-                      f"(expected: paths adding up to the flow{', here no path at all' if not edges else ''})", inp,
-                      site="decompose_using_max_bottleneck")
+                      f"(expected: paths adding up to the flow{', here ([], []): the graph has no edges' if not edges else ''})",
+                      inp, site="decompose_using_max_bottleneck")
+        return inp
+    if not edges and (impl["paths"] or impl["weights"]):
+        viol(ctx, f"graph without edges: expected ([], []), got ({impl['paths']}, {impl['weights']})", inp,
+             site="decompose_using_max_bottleneck")
         return inp
     tot = {e: Fraction(0) for e in edges}
     for p, w in zip(impl["paths"], impl["weights"]):
@@ -612,7 +625,7 @@ def run_antichain_case(ctx, spec, suite, use_model=True):
         fl = [[ren(u), ren(v), qstr(x)] for u in mflow for v, x in mflow[u].items()]
         ans = ctx.driver.call({"op": "antichain", "nodes": nodes, "edges": [list(e) for e in edges], "source": SRC, "sink": SNK,
                                "demand": [[u, v, qstr(x)] for (u, v), x in demand.items()], "flow": fl,
-                               "cost": qstr(mcost), "use_len": not wf})
+                               "cost": qstr(mcost), "use_len": wf is None})
         ctx.rep.cov["traces_validated_against_impl"] += 1
         model = {"raise": ans["raise"]} if "raise" in ans else ({"stuck": True} if "stuck" in ans else
                  {"cost": qstr(mcost), "antichain": ans["antichain"]})
